@@ -94,12 +94,12 @@ theorem inlLen_le (raw : Bytes) : inlLen raw ≤ 16 := by
 theorem inlLen_of_last_tag (raw : Bytes) (n : Nat) (hn : n < 16) (h : inlLast raw = n + 192) : inlLen raw = n := by
   have hm := Tie.maxInline_eq
   have hk : Gen.mask1100 = 192 := by decide
-  unfold inlLen; rw [h, hm, hk]; unfold USIZE; omega
+  unfold inlLen wrappingSub; rw [h, hm, hk]; unfold USIZE; split <;> omega
 
 theorem inlLen_of_last_text (raw : Bytes) (h : inlLast raw < 0xC0) : inlLen raw = 16 := by
   have hm := Tie.maxInline_eq
   have hk : Gen.mask1100 = 192 := by decide
-  unfold inlLen; rw [hm, hk]; unfold USIZE; omega
+  unfold inlLen wrappingSub; rw [hm, hk]; unfold USIZE; split <;> omega
 
 theorem inlLast_set (raw : Bytes) (x : UInt8) (hl : raw.length = 16) : inlLast (raw.set 15 x) = x.toNat := by
   unfold inlLast
